@@ -95,6 +95,12 @@ def make_case(rng, with_faults):
         if elf is None:
             return None
         shape["obj"] = f"as:{len(meta)}sec:{'raw' if any(m['raw'] and not m['data'] for m in meta) else 'text'}{':data' if any(m['data'] for m in meta) else ''}"
+        if rng.random() < 0.15:
+            base = rng.choice([0x400000, 0x10000000, 0xfff00000, 0x7fff00000000, 0xffffffff81000000])
+            moved = gen.relocate(elf, base)
+            if moved is not None:
+                elf = moved
+                shape["obj"] += ":hiaddr" if base >= 0x10000000 else ":moved"
         allsec = [m["name"] for m in meta]
         code = [m["name"] for m in meta if not m["data"]]
     names = gen.pick_names(rng)
@@ -145,7 +151,26 @@ def make_case(rng, with_faults):
             doc = {"config": {"sections": list(sections)}, **doc}
     if sections is None and "config" in doc:
         doc["config"].pop("sections", None)
+    if rng.random() < 0.3:
+        # an address range in the rule: tags branch operands on both routes, must not change what is disassembled
+        lo = rng.choice([0x0, 0x4, 0x10, 0x400000])
+        doc.setdefault("config", {})["valid_addr_range"] = {"min": "0x%x" % lo, "max": "0x%x" % (lo + rng.choice([0x8, 0x20, 0x1000, 0xffffff]))}
+        shape["range"] = True
     files[RULE] = gen.dump_yaml(doc)
+    # ---- how the input is named: through a symlinked directory and `..` (the OS resolves the link first)
+    if rng.random() < 0.08 and "/" not in OBJ:
+        files["store/v2/keep"] = "x"
+        files["store/" + OBJ] = files.pop(OBJ)
+        files["work/current"] = {"symlink": "../store/v2"}
+        decoy_src, _dm = gen.gen_asm_source(rng)
+        decoy = gen.assemble(decoy_src)
+        if decoy is not None:
+            files["work/" + OBJ] = decoy
+        OBJ = "work/current/../" + OBJ
+        shape["path"] = "symlink+dotdot"
+    elif rng.random() < 0.05:
+        OBJ = "./" + OBJ if rng.random() < 0.5 else OBJ.replace("/", "//") if "/" in OBJ else ".//" + OBJ
+        shape["path"] = "dot-or-double-slash"
     # ---- history prefix: what a leak would carry over
     prefix = []
     pclass = "none"
@@ -180,7 +205,7 @@ def make_case(rng, with_faults):
         prefix.append({"op": "match", "rule": rel, "input": pin, "type": "binary", "ret": rng.choice(["bool", "stream", "list"]), "search": rng.choice(["first", "all"])})
         pclass = pc if pclass == "none" else pclass + "," + pc
     # the same path held another object a moment ago, and was disassembled with the same rule
-    if rng.random() < 0.15:
+    if rng.random() < 0.15 and "path" not in shape:
         src0, _m0 = gen.gen_asm_source(rng, sections=[m["name"] for m in meta][:4] if not shape["obj"].startswith("real") else None)
         e0 = gen.assemble(src0)
         if e0 is not None and e0 != elf:
